@@ -112,6 +112,8 @@ type QCall struct {
 
 // QRunner interprets a queue program against implementation and model.
 type QRunner struct {
+	// FirstFailIdx: op log length when a writer call failed for the first time (file full), 0 = never
+	FirstFailIdx int
 	P    *QProgram
 	O    QOpts
 	Disk *simdisk.Disk
@@ -203,7 +205,12 @@ func (r *QRunner) openQueue() *Violation {
 	return nil
 }
 
-func (r *QRunner) count(n string) { r.Counters[n]++ }
+func (r *QRunner) count(n string) {
+	r.Counters[n]++
+	if r.FirstFailIdx == 0 && (n == "write-failed" || n == "next-failed" || n == "flush-failed") {
+		r.FirstFailIdx = r.Disk.LogLen()
+	}
+}
 
 func (r *QRunner) bounded() bool { return r.P.Cfg.MaxPages > 0 }
 
